@@ -24,8 +24,16 @@ def _load():
 NOT_APPLICABLE = {}
 HOOK_COMMITS = []
 ENGINES = [
-    dict(name='enum', path='engines/vh.hpp + harness/c0*_*.cpp', serves_properties=['C07'],
+    dict(name='enum', path='engines/vh.hpp + harness/c07_chksum.cpp, c08_numeric.cpp, c09_datetime.cpp, c24_schedule.cpp, c29_rotation.cpp, c32_xml.cpp', serves_properties=['C07', 'C08', 'C09', 'C24', 'C29', 'C32'],
          kind_free_text='exhaustive enumeration of a stated finite input lattice over the real code, sharded over 16 processes; sanitizers and guard pages as oracles'),
+    dict(name='msggen+refcodec', path='engines/explore/msggen.hpp, engines/explore/schema.hpp, vp/schema_model.py + harness/codec_lattice.cpp', serves_properties=['C01', 'C02', 'C11'],
+         kind_free_text='message lattice built from an independent model of the schema XML, real encoder/decoder/clone, independent tokenizer as oracle'),
+    dict(name='sim', path='engines/sim/sim.cpp, sim.hpp, world.hpp', serves_properties=['C15', 'C16', 'C17', 'C18', 'C19', 'C20', 'C22', 'C23', 'C26', 'C27'],
+         kind_free_text='deterministic single-threaded runtime: virtual clock, threads registered but never run, scripted Poco socket handed to the real Connection/Session, interposed file system calls'),
+    dict(name='bfs', path='engines/explore/bfs.hpp + harness/session_*.cpp, persist_check.cpp', serves_properties=['C16', 'C17', 'C19', 'C20', 'C22', 'C26'],
+         kind_free_text='explicit-state breadth-first search: state = event history replayed on a fresh real object, deduplicated by a canonical key, reference model compared at every step'),
+    dict(name='sched', path='engines/sched/sched.cpp, sched.h, explore.hpp, ff_shim.hpp + harness/c28_logger.cpp, c30_mpmc.cpp', serves_properties=['C28', 'C30'],
+         kind_free_text='cooperative scheduler (one futex baton, points at pthread create/join, locks, yields, sleeps and every FastFlow atomic) and iterative preemption-bounded depth-first explorer; executions run in process while none fails, in forked children from the first failing one on'),
 ]
 
 _load()
